@@ -515,6 +515,9 @@ class Interp:
         m = re.match(r"^std::array<(.*), (\d+)>$", base)
         if m:
             return PyVec([self.default_for_type(fn, m.group(1)) for _ in range(int(m.group(2)))])
+        m_at = re.match(r"^std::atomic<(unsigned long|unsigned int|int|long|unsigned char|unsigned short|short)>$", base)
+        if m_at:
+            return 0
         if base.startswith("std::vector<") or base.startswith("std::deque<"):
             return PyVec()
         if base.startswith("std::map<") or base.startswith("std::unordered_map<"):
@@ -981,7 +984,7 @@ class Interp:
             if isinstance(vals[0], PyVec) and all(isinstance(v, Opaque) for v in vals[1:]):
                 return copy.deepcopy(vals[0])   # (initializer_list[, allocator])
             if base.startswith("std::vector<") and len(vals) >= 1 and isinstance(vals[0], int):
-                fill = vals[1] if len(vals) > 1 and not isinstance(vals[1], Obj) else None
+                fill = vals[1] if len(vals) > 1 and not isinstance(vals[1], (Obj, Opaque)) else None
                 inner = base[len("std::vector<"):]
                 inner = inner.rsplit(", std::allocator", 1)[0] if ", std::allocator" in inner else inner[:-1]
                 if fill is None:
@@ -1085,6 +1088,24 @@ class Interp:
             # defaulted copy / move assignment of a library record: member-wise copy
             r = OBJ()
             return self.assign(fr, e, r, A(0))
+        if (bn.startswith("std::__atomic_base::") or bn.startswith("std::atomic::")) and e.get("obj") is not None:
+            # a std::atomic<integer> is modelled by its value (sequential interpretation of one thread)
+            r = OBJ()
+            cur = self.rv(r)
+            if isinstance(cur, int) and not isinstance(cur, bool) and isinstance(r, Ref):
+                if name in ("load", "<conv>", "operator unsigned long", "operator int", "operator long"):
+                    return cur
+                if name in ("store", "operator=") and args_n:
+                    r.set(V(0))
+                    return None
+                if name in ("fetch_add", "fetch_sub") and args_n:
+                    d_ = V(0)
+                    r.set(cur + d_ if name == "fetch_add" else cur - d_)
+                    return cur
+                if name in ("operator++", "operator--"):
+                    new_ = cur + (1 if name == "operator++" else -1)
+                    r.set(new_)
+                    return cur if args_n else new_
         if bn == "std::copy" and len(args_n) == 3:
             b0, e0, d0 = V(0), V(1), V(2)
             if isinstance(b0, Iter) and isinstance(e0, Iter) and isinstance(d0, Iter) and b0.seq is e0.seq \
